@@ -1,5 +1,7 @@
 import PeptVerif.Lemmas.Reorder
 import PeptVerif.Spec.ProForma
+import PeptVerif.Lemmas.AnnotEq
+import PeptVerif.Model.C07Strings
 /-!
 Helper lemmas tying the editors of `Model/Reorder.lean` to the ProForma round trip of C01 (`Pept.canon`,
 `Pept.parse_serialize`, imported read-only): the result of slice / reverse / shift / shuffle / sort_residues is, after the
@@ -588,5 +590,114 @@ theorem shift_canon' (a : Annotation) (k : Int) (hca : canon a = true) (hnw : No
         obtain ⟨hall, hpw, hne⟩ := canonIntervals_some _ _ c9
         simp only
         exact shifted_intervals_canon _ _ _ he0 he hne (by simpa using hall) hpw (hnw _ hL)
+
+
+/-! ### the normalisation is invisible to the library's `==` and recoverable from `canon` -/
+
+theorem nodup_of_canon_normalize (x : Annotation) (h : canon (normalize x) = true) :
+    ∀ l, x.internal = some l → (l.map (·.1)).Nodup := by
+  intro l hl
+  have c8 := ((canon_iff (normalize x)).1 h).2.2.2.2.2.2.2.1
+  simp only [normalize, hl] at c8
+  have hperm := sortBy_perm entryKey l
+  unfold normInternal at c8
+  change canonInternal _ (match sortBy entryKey l with | [] => none | y => some y) = true at c8
+  cases hS : sortBy entryKey l with
+  | nil =>
+    rw [hS] at hperm
+    have : l = [] := hperm.symm.eq_nil
+    subst this; simp
+  | cons y t =>
+    rw [hS] at c8
+    obtain ⟨_, hstrict, _⟩ := canonInternal_some _ _ c8
+    have := nodup_keys_of_strict _ hstrict
+    rw [← hS] at this
+    exact ((hperm.map (·.1)).nodup_iff).1 this
+
+theorem lookup_eq_dictGet (k : Int) (d : List (Int × List Mod)) : d.lookup k = Pept.dictGet k d := by
+  induction d with
+  | nil => rfl
+  | cons p t ih =>
+    obtain ⟨k', v⟩ := p
+    simp only [List.lookup_cons, Pept.dictGet]
+    by_cases h : k' = k
+    · subst h; simp
+    · have : (k == k') = false := by simp; omega
+      simp [this, h, ih]
+
+theorem getInternal_normalize (x : Annotation) (hnd : ∀ l, x.internal = some l → (l.map (·.1)).Nodup) (k : Int) :
+    getInternal (normalize x) k = getInternal x k := by
+  unfold getInternal
+  simp only [normalize]
+  cases hd : x.internal with
+  | none => rfl
+  | some l =>
+    have hperm := sortBy_perm entryKey l
+    unfold normInternal
+    show (match (match sortBy entryKey l with | [] => none | y => some y) with
+      | none => none | some d => d.lookup k) = l.lookup k
+    cases hS : sortBy entryKey l with
+    | nil =>
+      rw [hS] at hperm
+      have : l = [] := hperm.symm.eq_nil
+      subst this; rfl
+    | cons y t =>
+      simp only
+      rw [← hS, lookup_eq_dictGet, lookup_eq_dictGet,
+        dictGet_perm k _ _ hperm (((hperm.map (·.1)).nodup_iff).2 (hnd l hd))]
+
+/-- the library's `==` does not distinguish an annotation from its normal form -/
+theorem annEq_normalize (x : Annotation) (hnd : ∀ l, x.internal = some l → (l.map (·.1)).Nodup) :
+    annEq (normalize x) x = true := by
+  rw [annEq_iff]
+  refine ⟨rfl, areModsEqual_bequiv.refl _, areModsEqual_bequiv.refl _, areModsEqual_bequiv.refl _,
+    areModsEqual_bequiv.refl _, areModsEqual_bequiv.refl _, areModsEqual_bequiv.refl _, areModsEqual_bequiv.refl _,
+    ?_, areIntervalsEqual_bequiv.refl _, rfl⟩
+  intro k
+  rw [getInternal_normalize x hnd k]
+  exact areModsEqual_bequiv.refl _
+
+/-- residue modifications already in key order and not `{}`: the normal form is the annotation itself -/
+theorem normalize_of_sorted (x : Annotation)
+    (hs : ∀ l, x.internal = some l → l.Pairwise (fun p q => p.1 < q.1) ∧ l ≠ [] ∧ ∀ p ∈ l, 0 ≤ p.1) : normalize x = x := by
+  cases hd : x.internal with
+  | none =>
+    cases x; simp_all [normalize, normInternal]
+  | some l =>
+    obtain ⟨h1, h2, h3⟩ := hs l hd
+    have hsorted : sortBy entryKey l = l := by
+      apply sortBy_of_sorted
+      refine h1.imp_of_mem ?_
+      intro p q hp hq h
+      have := h3 p hp; have := h3 q hq
+      unfold entryKey; omega
+    have : normInternal (some l) = some l := by
+      unfold normInternal
+      show (match sortBy entryKey l with | [] => none | y => some y) = some l
+      rw [hsorted]
+      cases l with
+      | nil => exact absurd rfl h2
+      | cons y t => rfl
+    cases x
+    simp only [normalize] at hd ⊢
+    subst hd
+    simp only [this]
+
+
+/-! ### unmodified annotations -/
+
+theorem serializeResidues_plain (plus : Plus) (s : List Char) (i : Int) (rest : List Char) :
+    serializeResidues plus (plain s) i rest = rest := by
+  induction rest generalizing i with
+  | nil => rfl
+  | cons c t ih =>
+    simp only [serializeResidues, ih]
+    rfl
+
+/-- an unmodified annotation is written as its residue string -/
+theorem serialize_plain (plus : Plus) (s : List Char) : serialize plus (plain s) = s := by
+  unfold serialize serializeMiddle
+  rw [show (plain s).seq = s from rfl, serializeResidues_plain]
+  simp [serializeStart, serializeEnd, plain, optMods]
 
 end Pept.Reorder
